@@ -89,6 +89,10 @@ type Case struct {
 	// went away in the middle of an upload): with post-data logging on the
 	// request cannot be converted; the exchange then contributes no entry.
 	FailBody bool `json:"fail_body,omitempty"`
+	// MidExport (with Handler): the log is also fetched through the export
+	// handler while the exchange is in flight - after its request, before its
+	// response; the later fetch must show the completed exchange.
+	MidExport bool `json:"mid_export,omitempty"`
 }
 
 // failingBody yields data and then an error instead of io.EOF.
@@ -327,6 +331,9 @@ func run(c Case) (v kit.Verdict) {
 		req.Body = &failingBody{data: mq.Entity[:len(mq.Entity)/2]}
 	}
 	reqErr := l.ModifyRequest(req)
+	if c.Handler && c.MidExport {
+		har.NewExportHandler(l).ServeHTTP(httptest.NewRecorder(), httptest.NewRequest("GET", "/logs", nil))
+	}
 
 	var res *http.Response
 	if c.Built {
@@ -889,6 +896,7 @@ func gen(t *rapid.T) Case {
 	if c.Req.Body.Kind != "none" {
 		c.FailBody = rapid.IntRange(0, 9).Draw(t, "fail_body") == 0
 	}
+	c.MidExport = c.Handler && rapid.Bool().Draw(t, "mid_export")
 	return c
 }
 
@@ -996,6 +1004,12 @@ func classes(c Case) []string {
 	if c.Handler {
 		cl = append(cl, "through-export-handler")
 	}
+	if c.MidExport {
+		cl = append(cl, "exported-while-in-flight")
+	}
+	if c.Req.CookieLines >= 2 {
+		cl = append(cl, "cookies-on-several-lines")
+	}
 	for _, st := range c.Stale {
 		switch {
 		case st == "req-content-length" && c.Req.Framing == "cl" && c.Req.Body.Kind != "none" && c.Req.Body.Kind != "form" && c.Req.Body.Kind != "multipart" && c.Req.Body.Size > 0:
@@ -1048,7 +1062,7 @@ var propEntry = &kit.Prop[Case]{
 	Gates: map[string]float64{
 		"nontrivial": 0.6, "chunked-request": 0.1, "chunked-urlencoded": 0.01, "compressed-response": 0.15, "compressed-chunked-response": 0.03,
 		"non-utf8": 0.2, "non-utf8-param": 0.03, "req-body-multipart": 0.05, "req-body-form": 0.05, "post-optin": 0.08, "body-optout": 0.08,
-		"query": 0.3, "request-cookies": 0.15, "response-cookies": 0.15, "redirect": 0.08, "through-export-handler": 0.3, "option-history": 0.3, "option-overridden": 0.12, "stale-content-length": 0.02, "stale-host": 0.08, "stale-transfer-encoding": 0.02, "built-response": 0.08, "unparseable-form-captured": 0.02, "request-body-read-fails-while-captured": 0.02, "query-value-with-equals-sign": 0.05, "query-pair-rejected-by-net-url": 0.05, "built-response-http10": 0.004,
+		"query": 0.3, "request-cookies": 0.15, "response-cookies": 0.15, "redirect": 0.08, "through-export-handler": 0.3, "option-history": 0.3, "option-overridden": 0.12, "stale-content-length": 0.02, "stale-host": 0.08, "stale-transfer-encoding": 0.02, "built-response": 0.08, "unparseable-form-captured": 0.02, "exported-while-in-flight": 0.15, "cookies-on-several-lines": 0.04, "request-body-read-fails-while-captured": 0.02, "query-value-with-equals-sign": 0.05, "query-pair-rejected-by-net-url": 0.05, "built-response-http10": 0.004,
 	},
 }
 
@@ -1210,6 +1224,21 @@ func matrix(yield func(Case) bool) {
 			if !yield(c) {
 				return
 			}
+		}
+	}
+	// cookies on several Cookie lines; the log fetched through the handler while
+	// the exchange is in flight and again when it is complete
+	{
+		rq := jsn
+		rq.Cookies = []msggen.Cookie{{Name: "sid", Value: "1"}, {Name: "theme", Value: "dark"}, {Name: "a", Value: "x.y"}}
+		for _, n := range []int{2, 3} {
+			rq.CookieLines = n
+			if !yield(Case{Req: rq, Res: txt, Post: allOpt, Body: allOpt}) {
+				return
+			}
+		}
+		if !yield(Case{Req: jsn, Res: txt, Post: allOpt, Body: allOpt, Handler: true, MidExport: true}) {
+			return
 		}
 	}
 	// the request body cannot be read to its end: no entry, never one without a request
